@@ -1,5 +1,5 @@
 SPECIFICATION Spec
 CONSTANTS
   HasOld <- MCDays
-INVARIANTS EitherOrKF
+INVARIANTS EitherOrKF NoBogusInterface
 CHECK_DEADLOCK FALSE
